@@ -151,6 +151,16 @@ func main() {
 			if rng.Chance(30) {
 				extra += "Cc: alice@example.org,\r\n bob@example.org\r\n"
 			}
+			if rng.Chance(35) {
+				// a field name occurring more than once: the searched text may be in a later occurrence only
+				extra += "X-Tag: second " + rng.Pick(words) + "\r\n"
+				if rng.Bool() {
+					extra += "Cc: unique@example.net\r\n"
+				}
+				if rng.Bool() {
+					extra += "Subject: notes 42\r\n"
+				}
+			}
 			date := rng.Pick([]string{"Mon, 02 Jan 2006 15:04:05 +0000", "Sun, 01 Jan 2006 23:59:59 -0700", "Tue, 03 Jan 2006 00:00:01 +0200", "garbage date", ""})
 			dl := ""
 			if date != "" {
